@@ -91,6 +91,13 @@ Theorem C04_holds : forall k, valid k -> holds k (run_model k) = [].
 Proof. exact holds_run_model. Qed.
 Print Assumptions C04_holds.
 
+(* the driver's `covered` flag (5th item of C04.Entry.entry's answer) implies the hypotheses of C04_holds *)
+Lemma C04_validb_valid : forall k, validb k = true -> valid k.
+Proof. exact validb_valid. Qed.
+Theorem C04_covered_cases : forall k, validb k = true -> holds k (run_model k) = [].
+Proof. intros k H. apply C04_holds. now apply C04_validb_valid. Qed.
+Print Assumptions C04_covered_cases.
+
 (* ---- the behaviour before commit 232ac55 (D9) violates not_regular_is_not_found ---- *)
 Definition cfg_d : config :=
   {| c_request_path := [SL]; c_filemode := false; c_target := bytes_of_string "/srv"; c_suffix := [];
